@@ -630,7 +630,15 @@ TV(v, st, d) ==
          [] v.k = "cell"   -> [k |-> "cell", ty |-> st.cells[v.id].ty, c |-> TV(st.cells[v.id].val, st, d - 1)]
          [] v.k = "fnv"    -> [k |-> "fnv", sig |-> st.fns[v.id].sig]
          [] OTHER -> v
-MemberS(v, ty, st) == Member(TV(v, st, 6), ty)
+RECURSIVE HasUnspecT(_)
+HasUnspecT(v) ==
+  CASE v.k = "unspec" -> TRUE
+    [] v.k \in {"array", "tuple"} -> \E i \in 1..Len(v.es) : HasUnspecT(v.es[i])
+    [] v.k = "struct" -> \E f \in DOMAIN v.fs : HasUnspecT(v.fs[f])
+    [] v.k = "cell" -> HasUnspecT(v.c)
+    [] OTHER -> FALSE
+\* a value that contains the unspecified value of an exhausted iterator is not judged
+MemberS(v, ty, st) == LET tv == TV(v, st, 6) IN HasUnspecT(tv) \/ Member(tv, ty)
 CellsTyped(st) == \A i \in 1..Len(st.cells) : MemberS(st.cells[i].val, st.cells[i].ty, st)
 
 \* what an observer sees of a finished run
